@@ -58,7 +58,7 @@ func init() {
 		"DESIGN.md §5 C04, §4.7",
 		[]string{"that the three libraries agree on the logical content of equivalent documents (anchors, dotted keys, dates)", "TOML date/time types"},
 		[]string{"go-toml/v2 v2.2.3 decodes integers into int64 and floats into float64 (checked against go.mod)."},
-		ruleC04Census, ruleC04Float, ruleC04Normalised("C04.normalised"), ruleC04Ext)
+		ruleC04Census, ruleC04Canon, ruleC04Float, ruleC04Normalised("C04.normalised"), ruleC04Ext)
 
 	mk("C05", "Output round-trips in every format: what bkl writes reads back unchanged",
 		"census of the format table (writer and reader reach the same codec package), separator literals matched against the reader's splitter pattern, path-effect summaries of every stream encoder/decoder (no document lost), format-choice flow in cmd/bkl.main and the Output* methods",
